@@ -199,6 +199,12 @@ func init() {
 		l.p("/-- the pre-test name in `path.Match(pattern, NAME)` -/")
 		l.p("def likeTestName : List UInt8 := %s", leanBytes(likeTestName(msgFd)))
 
+		// --- pkg/lql/datetime.go: the numeric (unix-nano) fallback of parseLqlDateTime
+		df := parseFile("pkg/lql/datetime.go")
+		l.p("/-- parseLqlDateTime's numeric fallback, normalised: the strconv function with its literal arguments and what is handed to")
+		l.p("time.Unix (a plain integer parse of base 10, 64 bits, used as it is = the literal's exact value) -/")
+		l.p("def tsNumericFallback : String := %s", leanStr(numericFallbackDesc(funcDecl(df, "", "parseLqlDateTime"))))
+
 		// --- pkg/cursor/fiterator.go: the valid/le cache
 		ff := parseFile("pkg/cursor/fiterator.go")
 		nextFd, sbFd, getFd := funcDecl(ff, "fiterator", "Next"), funcDecl(ff, "fiterator", "SetBackward"), funcDecl(ff, "fiterator", "Get")
@@ -744,4 +750,73 @@ func rangeCheckDesc(f *ast.File, rangeFd, getFd *ast.FuncDecl) string {
 		return "?"
 	}
 	return desc
+}
+
+// numericFallbackDesc: `v, err := strconv.<F>(dt, <args>)` … `time.Unix(<sec>, <nsec>)` in parseLqlDateTime, as
+// "<F>(_,<args>);Unix(<sec>,<nsec>)" with the parsed variable written as `v`
+func numericFallbackDesc(fd *ast.FuncDecl) string {
+	if fd == nil {
+		problem("parseLqlDateTime not found")
+		return "?"
+	}
+	parse, vname, unix := "", "", ""
+	render := func(e ast.Expr) string {
+		var r func(e ast.Expr) string
+		r = func(e ast.Expr) string {
+			switch x := e.(type) {
+			case *ast.BasicLit:
+				return x.Value
+			case *ast.Ident:
+				if x.Name == vname {
+					return "v"
+				}
+				return x.Name
+			case *ast.ParenExpr:
+				return r(x.X)
+			case *ast.CallExpr:
+				as := make([]string, len(x.Args))
+				for i, a := range x.Args {
+					as[i] = r(a)
+				}
+				return c05CalleeName(x) + "(" + strings.Join(as, ",") + ")"
+			case *ast.BinaryExpr:
+				return r(x.X) + x.Op.String() + r(x.Y)
+			}
+			return "?"
+		}
+		return r(e)
+	}
+	ast.Inspect(fd.Body, func(n ast.Node) bool {
+		switch s := n.(type) {
+		case *ast.AssignStmt:
+			if len(s.Rhs) == 1 && len(s.Lhs) == 2 {
+				if ce, ok := s.Rhs[0].(*ast.CallExpr); ok {
+					if se, ok := ce.Fun.(*ast.SelectorExpr); ok {
+						if pk, ok := se.X.(*ast.Ident); ok && pk.Name == "strconv" && len(ce.Args) >= 1 {
+							if id, ok := s.Lhs[0].(*ast.Ident); ok {
+								vname = id.Name
+							}
+							as := []string{"_"}
+							for _, a := range ce.Args[1:] {
+								as = append(as, render(a))
+							}
+							parse = se.Sel.Name + "(" + strings.Join(as, ",") + ")"
+						}
+					}
+				}
+			}
+		case *ast.CallExpr:
+			if se, ok := s.Fun.(*ast.SelectorExpr); ok && se.Sel.Name == "Unix" && vname != "" && unix == "" && len(s.Args) == 2 {
+				if c05Mentions(s.Args[0], vname) || c05Mentions(s.Args[1], vname) {
+					unix = "Unix(" + render(s.Args[0]) + "," + render(s.Args[1]) + ")"
+				}
+			}
+		}
+		return true
+	})
+	if parse == "" || unix == "" {
+		problem("parseLqlDateTime: numeric fallback (strconv call + time.Unix) not found")
+		return "?"
+	}
+	return parse + ";" + unix
 }
